@@ -506,6 +506,27 @@ def usage_exits():
     return defn("usage_exit_sites", "list (string * Z)", coq_list(rows))
 
 
+def dry_null_guard():
+    """_load_dry_config_file: `config = yaml.safe_load(f) or {}` (an empty file means an empty mapping) or the bare call
+    (None is then indexed with "dry": TypeError -> handle_linting_error)"""
+    f = find_func(parse("src/cli/linters/code_smells.py"), "_load_dry_config_file")
+    hits = [n for n in ast.walk(f) if isinstance(n, (ast.Assign, ast.AnnAssign)) and "yaml.safe_load" in ast.unparse(n.value or ast.Constant(None))]
+    if len(hits) != 1:
+        raise Unsupported(f"_load_dry_config_file: {len(hits)} yaml.safe_load assignments")
+    v = ast.unparse(hits[0].value)
+    if v == "yaml.safe_load(f) or {}":
+        guarded = "true"
+    elif v == "yaml.safe_load(f)":
+        guarded = "false"
+    else:
+        raise Unsupported(f"_load_dry_config_file: unexpected load expression {v}")
+    # the lookup that follows must be the subscription guarded only against KeyError
+    src_ = ast.unparse(f)
+    if "config['dry']" not in src_ or "except KeyError" not in src_:
+        raise Unsupported("_load_dry_config_file: dry section lookup changed")
+    return defn("dry_config_null_guard", "bool", guarded)
+
+
 # ------------------------------------------------------------------ syntax-error violations
 def syntax_defaults():
     """`line=<err>.lineno or K`, `column=<err>.offset or K'` in the syntax-error violation builders"""
@@ -553,5 +574,6 @@ ITEMS = [
     ("severity_names", severity_names),
     ("cli_exit_table", exit_table),
     ("usage_exit_sites", usage_exits),
+    ("dry_config_null_guard", dry_null_guard),
     ("syntax_error_defaults", syntax_defaults),
 ]
